@@ -336,6 +336,15 @@ impl Ctl {
         self.buf.iter().any(|e| pred(&e.1))
     }
 
+    /// forget buffered/arrived events for which `pred` holds; everything else stays in arrival order
+    pub fn forget(&mut self, mut pred: impl FnMut(&Ev) -> bool) {
+        while let Ok((st, ev)) = self.rx.try_recv() {
+            self.note(&ev);
+            self.buf.push_back((st, ev));
+        }
+        self.buf.retain(|e| !pred(&e.1));
+    }
+
     pub fn drain_buffer(&mut self) -> Vec<Ev> {
         while let Ok((st, ev)) = self.rx.try_recv() {
             self.note(&ev);
